@@ -194,6 +194,18 @@ def check_parsers(case):
         'load_dict': lambda: Builder().store_dict(cell).end_cell().begin_parse().load_dict(n, value_deserializer=des),
         'from_cell': lambda: {k: des(v) for k, v in HashMap.from_cell(cell, n).map.items()},
     }
+
+    def _inline_behind_prefix():
+        # the root edge stored INLINE (`Hashmap n X` as in validators#11) behind a prefix the caller has already consumed
+        b = Builder().store_bits('1101').store_ref(cell)
+        b.store_cell(cell)
+        s = b.end_cell().begin_parse()
+        s.load_bits(4)
+        s.load_ref()
+        return s.load_hashmap(n, value_deserializer=des)
+    if not cell.type_ != -1 and len(cell.bits) + 4 <= 1023 and len(cell.refs) + 1 <= 4:
+        readers['load_hashmap@inline-behind-prefix'] = _inline_behind_prefix
+    readers['parse_hashmap-second-time'] = readers['parse_hashmap']          # the same cell object parsed again
     for name, rd in readers.items():
         ok, got = call(rd)
         if not ok:
